@@ -59,6 +59,12 @@ impl StyleSheetOutput {
     }
 
     pub(crate) fn append_token(&mut self, token: StepToken, src: Option<Token>) {
+        let name = src.map(|x| x.to_css_string());
+        self.append_token_with_name(token, name.as_deref())
+    }
+
+    /// Append a token whose source-map entry carries `name` (the spelling of the source token it replaces).
+    pub(crate) fn append_token_with_name(&mut self, token: StepToken, name: Option<&str>) {
         let next_ser_type = token.serialization_type();
         if self
             .prev_ser_type
@@ -88,10 +94,7 @@ impl StyleSheetOutput {
         } else if !write_integer_token(&mut self.s, &token) {
             token.to_css(&mut self.s).unwrap();
         }
-        let name = src.map(|x| {
-            let s = x.to_css_string();
-            self.source_map.add_name(&s)
-        });
+        let name = name.map(|s| self.source_map.add_name(s));
         self.source_map.add_raw(
             0,
             self.utf16_len,
